@@ -259,14 +259,14 @@ def path_lines(body, prev, end):
 
 # ------------------------------------------------------------------ MUSTCALL / ORDER
 
-def mustcall(R, key, body, required, S, start=None, extra_err=(), assume=(), depth=None, allow_err_exits=True, what=""):
+def mustcall(R, key, body, required, S, start=None, extra_err=(), assume=(), depth=None, allow_err_exits=True, what="", ends=None, drop_edges=()):
     """Every success path from `start` (default entry) to Return passes a call matching each
     element of `required` (each element: pattern or list of alternative patterns)."""
     R.fn(body)
     ok = True
-    drop = assumed_edges(body, assume)
+    drop = assumed_edges(body, assume) | set(drop_edges)
     err = body.error_exit_blocks(extra_err) if allow_err_exits else set()
-    rets = set(body.return_blocks())
+    rets = set(body.return_blocks()) if ends is None else set(ends)
     for req in required:
         ps = pats(req)
         hit = S.hit_blocks(body, ps, depth, extra_err)
@@ -544,7 +544,33 @@ def side_is_error(body, start_bb, other_bb, extra_err=()):
     return not (reach & set(body.return_blocks()))
 
 
-def cmp_table(R, key, body, A, B, expect, classify, what="", min_sites=1, max_sites=None, S=None):
+def pattern_lits(ps):
+    """literals a rule's source patterns name explicitly (`lit:96$`) are part of the frozen form"""
+    import re as _re
+    out = []
+    for p in ps:
+        p = p if isinstance(p, str) else p.pattern
+        m = _re.fullmatch(r"lit:(-?\d+)\$?", p)
+        if m:
+            out.append("lit:" + m.group(1))
+    return out
+
+
+def extra_arith(srcs, declared):
+    """op:/lit: sources of an operand that the rule's pattern does not mention: an undeclared `+ 1`,
+    `* 2`, `- k` on a boundary operand changes the boundary although the named sources still match"""
+    dp = pats(declared)
+    out = []
+    for s in sorted(srcs):
+        if s.startswith("op:") or s.startswith("lit:"):
+            if s in ("op:Not",):
+                continue
+            if not any(p.search(s) for p in dp):
+                out.append(s)
+    return out
+
+
+def cmp_table(R, key, body, A, B, expect, classify, what="", min_sites=1, max_sites=None, S=None, strict=True, arith=((), ())):
     """expect: dict {'<': label, '=': label, '>': label}; classify(body, site, true_t, false_t) -> (label_true, label_false)
     or None when the site is irrelevant."""
     R.fn(body)
@@ -558,6 +584,17 @@ def cmp_table(R, key, body, A, B, expect, classify, what="", min_sites=1, max_si
             labs = classify(body, site, tt, ft)
             if labs is None:
                 continue
+            if strict:
+                sa, sb = arith_of(body, site.a), arith_of(body, site.b)
+                if swapped:
+                    sa, sb = sb, sa
+                da = sorted(list(arith[0]) + pattern_lits(A))
+                db = sorted(list(arith[1]) + pattern_lits(B))
+                if sa != da or sb != db:
+                    R.bad(key, "%s: the operands of the comparison at %s carry arithmetic %s / %s, the frozen form is %s / %s: the boundary moved" % (
+                        what or "cmp", site.where(), sa, sb, da, db), [site.where()])
+                    ok = False
+                    continue
             lt, lf = labs
             table = {"<": lt if tr[0] else lf, "=": lt if tr[1] else lf, ">": lt if tr[2] else lf}
             if table == expect:
@@ -795,3 +832,104 @@ def loop_over_all(R, key, body, inner_call, must_src, what=""):
     if ok:
         R.ok(key, "%s: the loop around %s covers every element of %s" % (what or "loop", label(inner_call), must_src), [c.where() for c in inner[:3]])
     return ok
+
+
+def variant_edges(body, adt, src_pats, variant):
+    """edges to drop when every value of enum `adt` whose provenance matches src_pats is known to be `variant`"""
+    drop = set()
+    for (bb, arms, other) in enum_arms(body, adt, src_pats):
+        keep = arms.get(variant, other)
+        for s in body.succs(bb):
+            if s != keep:
+                drop.add((bb, s))
+    return drop
+
+
+# ------------------------------------------------------------------ value expression trees (AFFINE / strict CMP)
+
+TRANSPARENT = rx(r"(::to_owned|::clone|Deref::deref|DerefMut::deref_mut|::as_ref|::borrow|::into|::from|::unwrap|::expect|::copied|::cloned|::to_entity|::as_reader|"
+                 r"Try::branch|::unpack|::pack|::into_inner|::get_ref|::as_slice|::as_u64|::to_vec|::full_value)$")
+ARITH_CALL = rx(r"(arith::(Add|Sub|Mul|Div|Rem)(<.*>)?::(add|sub|mul|div|rem)|::(saturating|checked|wrapping|overflowing)_(add|sub|mul|div|pow)|cmp::(max|min)|Ord::(max|min)|"
+                r"::(safe_add|safe_sub|safe_mul|safe_div|safe_mul_ratio)|::(pow|abs_diff))$")
+ARITH_OPS = {"Add", "Sub", "Mul", "Div", "Rem", "AddWithOverflow", "SubWithOverflow", "MulWithOverflow", "AddUnchecked", "SubUnchecked", "MulUnchecked", "Shl", "Shr", "BitAnd", "BitOr", "BitXor"}
+
+
+def expr_sig(body, op, depth=0, seen=None, out=None):
+    """Arithmetic signature of the value an operand holds: the multiset of arithmetic operators and integer literals
+    met while walking back through copies, refs, casts, field reads, value-preserving calls and arithmetic itself;
+    every other call / parameter / field of a parameter is a leaf. Returns list of strings ('op:add', 'lit:1', 'leaf:<callee>')."""
+    if out is None:
+        out = []
+    if seen is None:
+        seen = set()
+    if depth > 24:
+        return out
+    if "p" not in op:
+        if op.get("c") and not str(op["c"]).startswith("fn:"):
+            out.append("leaf:const:" + op["c"])
+        elif op.get("v") is not None and op.get("ty") not in ("bool", "()"):
+            out.append("lit:" + str(op["v"]))
+        return out
+    local = op["p"][0]
+    projs = op["p"][1]
+    # tuple field .#1 of a WithOverflow result is the overflow flag: not a value
+    if local in seen:
+        return out
+    seen.add(local)
+    if 1 <= local <= body.argc and not body.defs().get(local):
+        out.append("leaf:param:%s" % (body.local_names().get(local) or local))
+        return out
+    ds = body.defs().get(local, [])
+    if not ds:
+        if body.kind != "Fn" and local == 1:
+            out.append("leaf:upvar")
+        return out
+    for d in ds:
+        if d[0] == "assign":
+            if d[2][1] and not projs:
+                # partial write into an aggregate: ignore for scalar value chains
+                continue
+            rv = d[3]
+            k = rv.get("k")
+            if k in ("use", "cast", "repeat"):
+                expr_sig(body, rv["o"], depth + 1, seen, out)
+            elif k == "ref":
+                expr_sig(body, {"p": rv["p"]}, depth + 1, seen, out)
+            elif k == "bin":
+                if rv["op"] in ARITH_OPS:
+                    out.append("op:" + rv["op"].replace("WithOverflow", "").replace("Unchecked", "").lower())
+                    expr_sig(body, rv["a"], depth + 1, seen, out)
+                    expr_sig(body, rv["b"], depth + 1, seen, out)
+                else:
+                    out.append("leaf:cmp")
+            elif k == "un":
+                if rv["op"] == "Neg":
+                    out.append("op:neg")
+                expr_sig(body, rv["a"], depth + 1, seen, out)
+            elif k == "agg":
+                if rv.get("ak") == "tuple" or rv.get("variant") in ("Some", "Ok"):
+                    for o in rv.get("ops", []):
+                        expr_sig(body, o, depth + 1, seen, out)
+                else:
+                    out.append("leaf:agg:" + str(rv.get("adt")))
+            elif k == "discr":
+                out.append("leaf:discr")
+        else:
+            c = d[2]
+            nm = c.res or c.callee
+            if ARITH_CALL.search(c.callee) or (c.res and ARITH_CALL.search(c.res)):
+                m = ARITH_CALL.search(c.callee) or ARITH_CALL.search(c.res)
+                out.append("op:" + c.callee.split("::")[-1])
+                for a in c.args:
+                    expr_sig(body, a, depth + 1, seen, out)
+            elif TRANSPARENT.search(c.callee):
+                if c.args:
+                    expr_sig(body, c.args[0], depth + 1, seen, out)
+            else:
+                out.append("leaf:call:" + nm)
+    return out
+
+
+def arith_of(body, op):
+    """ops and literals only (sorted)"""
+    return sorted(x for x in expr_sig(body, op) if x.startswith("op:") or x.startswith("lit:"))
